@@ -95,7 +95,7 @@ int main()
     {
         if (line.empty())
             continue;
-        vh::case_alarm(30);
+        vh::case_alarm(10);
         auto f = vh::fields(line);
         std::string out;
         if (line.rfind("conn ", 0) == 0)
